@@ -9,6 +9,7 @@ P = {
     "C22.j": "visit_rule_param by evaluation: explicit skipws / noskipws / ws modifiers are read the same whatever the metamodel-wide setting",
     "C22.h": "ws modifier: by evaluation over strings with and without escapes, the rule's whitespace set is exactly the characters the modifier names (newline iff \\n, carriage return iff \\r, tab iff \\t, blank iff a blank)",
     "C01.i": "attribute type over repeated assignments: the type recorded by the first assignment and the type later assignments are compared with are the same expression",
+    "C01.j": "by evaluation of _init_obj_attrs on instances of a user class with class-level attributes named like grammar attributes: the object itself gets every attribute of its rule - a new empty list per list attribute (not shared between objects or attributes), False for ?=, None for references, None or (auto_init_attributes) the base type's default for base types",
     "C01.a": "operator dispatch table (repeat operators, assignment operators, syntactic predicates) -> Arpeggio class / multiplicity agrees with docs and with the reader in process_node",
     "C01.b": "repetition-modifier keys written by visit_repeat_modifiers are consumed by both readers; modifiers on ?/=/?= are rejected",
     "C01.c": "rule modifiers (ws/skipws) are installed only on expressions whose _parse honours them (Sequence subclasses)",
@@ -36,6 +37,7 @@ P = {
 "C03": dict(
   decided={
     "C03.k": "the visited set of the rule-kind fixpoint lives for one pass: it is re-created inside the change-driven loop before the classes are visited",
+    "C03.l": "by evaluation of _init_class with sample classes (own vs inherited attributes): with inherits=None the class gets a new empty inheritor list of its own, also when it is a Python subclass of an initialised user class or was initialised before",
     "C03.j": "the static walkers of rule kind / inheritance inference skip syntactic predicates (And/Not leave no result at run time): every use of a node's .root in them lies where the node is known not to be a predicate",
     "C03.a": "every comparison with a RULE_*/MULT_* constant has a rule-kind / multiplicity operand (kind discipline)",
     "C03.b": "inside the change-driven fixpoint of _determine_rule_types every derived fact is recomputed each pass",
@@ -67,8 +69,9 @@ P = {
     "C05.a": "the walkers documented to follow containment only make every descent control-dependent on attr.cont",
     "C05.b": "get_children: append before/after descent by children_first, visited-by-id, should_follow dominates the descent; parent climb only through .parent; parent assigned after the children loop only when the stack is non-empty",
     "C05.c": "the single-valued descent of get_children is guarded by a None-test of the child, never by its truth value",
-    "C05.d": "get_parent_of_type climbs to .parent before the type test on every path to the success return (start object excluded), and climbs nothing else",
-    "C05.e": "a class passed as type argument is normalised with the projection the selector compares (__name__ vs __class__.__name__)",
+    "C05.d": "by evaluation over a sample containment chain (A in B in A in B in C): get_parent_of_type returns the nearest proper ancestor of the type, never the start object, None when there is none, and follows nothing but .parent",
+    "C05.e": "by evaluation: a class passed as type argument (whose qualified name differs from its simple name) selects the same objects as its simple name, in get_parent_of_type and in the selector get_children_of_type builds",
+    "C05.f": "by evaluation: get_model returns the root of the sample chain for every object of it and never consults equality (==, in) of model objects, which user classes may define by value",
   },
   declined="exactly-once and ordering guarantees over arbitrary object graphs",
   technique="control-dependence (CFG post-dominators) on descent sites + sibling cross-check of the three walkers"),
@@ -85,12 +88,12 @@ P = {
 "C07": dict(
   decided={
     "C07.d": "the tool-support bookkeeping (reads _tx_position/_tx_filename of the target) is not reachable, within one iteration, from the statement that binds a builtin",
-    "C07.a": "PlainName.__call__ cardinality table: 0 -> None, 1 -> the object, >=2 -> TextXSemanticError; selector conjoins name equality and textx_isinstance; search root is get_model(obj)",
+    "C07.a": "by evaluation of PlainName.__call__ over sample models (stand-ins for get_children/get_model/textx_isinstance): 0 conforming objects of the name -> None, 1 -> that object, >= 2 -> TextXSemanticError; same-named objects of unrelated classes do not count; only the model containing the referencing object is searched",
     "C07.b": "resolve_one_step: builtins consulted only after the provider returned None, accepted only under textx_isinstance; still None -> UNKNOWN_OBJ_ERROR; Postponed never stored",
     "C03.c": "(shared with C03) the type-conformance test recurses over inheritors with a cycle guard",
     "C03.d": "(shared with C03) textx_isinstance decision table",
     "C03.h": "(shared with C03) the cycle guard is identity-keyed and skips, never ends, the search",
-    "C07.c": "the PlainName selector consists of existence test, name equality and type conformance only (no truth-value test of the name); found objects are returned by None-test",
+    "C07.c": "by evaluation: an object whose name is 0 or the empty string, and a matching object that is falsy (user class with __len__/__bool__), are found; without multi_metamodel_support the parser._instances lookup returns the first hit among the inheriting classes depth-first, by None-test",
   },
   declined="correctness of the search over all models and type hierarchies",
   technique="decision-table extraction with a cardinality domain {0,1,>=2}"),
@@ -153,9 +156,9 @@ P = {
   decided={
     "C18.i": "ModelRepository.remove_model, evaluated on a three-entry repository (two files and a string model under a synthetic key): removing a stored model removes exactly its entry wherever it sits; a model that is not stored changes nothing",
     "C13.e": "the test that gates the descent of the processor walk looks the object's class up by its qualified name (_tx_fqn), the key under which every namespace of the meta-model is searched, not by the simple class name",
-    "C13.a": "call_obj_processors recurses before processing (children first), own-rule processor before grammar-rule processor; in parse_tree_to_objgraph processors run after the resolution loop, the unresolved check and _end_model_construction of all models",
-    "C13.b": "list branch and scalar branch both store a non-None processor result back",
-    "C13.c": "descent is containment-only and skipped for match rules",
+    "C13.a": "by evaluation of call_obj_processors over a sample model: contained objects are processed before their container, an object's own-rule processor before the declared-rule processor, each registered processor exactly once per object; in parse_tree_to_objgraph processors run after the resolution loop, the unresolved check and _end_model_construction of all models",
+    "C13.b": "by evaluation: a non-None processor result replaces the object in its list slot / single attribute, the own-rule result wins over the declared-rule result, a None result leaves the object in place",
+    "C13.c": "by evaluation: the target of a non-containment reference is not descended into, match-rule values are not handed to the walker's processors",
     "C13.d": "whether a model's processors run is decided from that model's own metamodel",
   },
   declined="call counts over all containment shapes",
@@ -166,7 +169,8 @@ P = {
     "C14.i": "restore is idempotent per parser: the 'replaced' flag is cleared before any nesting counter is decremented, on every path and unconditionally (a repeated restore for the same parser does nothing)",
     "C14.h": "postponed initialisation: the per-object record is removed from _tx_obj_attrs before the collected attributes are applied to the object and before __init__ runs (the instrumented __setattr__ routes by the record's presence)",
     "C14.a": "obligation O1: attribute-method instrumentation of user classes is restored on every exit of every load for every model under construction; no release without acquire",
-    "C14.c": "the tuple of dunder names restored covers the tuple replaced",
+    "C14.c": "by evaluation with sample classes (own vs inherited attributes): _replace_user_attr_methods instruments every user class, also a subclass of a user class without dunder methods of its own, and replace followed by restore leaves every class's own attributes exactly as before",
+    "C14.j": "by evaluation: instrumentation nests - a class stays instrumented until the restore of the outermost replacing parser; a repeated restore of one parser, and the restore of a parser that never replaced, change nothing",
     "C14.d": "__init__ called once per created instance with kwargs filtered to grammar attributes, after restore and before processors",
     "C14.e": "on every normal path through parse_tree_to_objgraph the parser is handed over to the model or the user classes are restored at once (immutable models)",
     "C14.f": "cleanup-and-reraise handlers that restore the user classes are catch-all (KeyboardInterrupt/SystemExit abort a load too)",
@@ -301,6 +305,7 @@ P = {
 "C25": dict(
   decided={
     "C25.h": "the 'redefined imported rule' error for user classes depends only on the user class being found and its rule name having been used before",
+    "C25.i": "by evaluation of _init_class: the class's own qualified name is <current namespace>.<rule name> and the current namespace maps the rule name to the class, whatever qualified name the class inherits or carried before",
     "C25.a": "unqualified lookup: current namespace first, then imported namespaces in list order, first hit",
     "C25.b": "import once; namespace registered before the imported file is loaded (cycle cut)",
     "C25.c": "imported namespaces are appended in import order",
